@@ -99,6 +99,8 @@ def run(ctx):
     import c11
     c01.rule_window(ctx, F)     # NSEC/NSEC3 type bitmap: every window of 1..=32 bitmap octets, nothing else
     c11.rule_time48(ctx, F)     # TSIG 48-bit times: into_octets and from_slice use the same bit layout
+    import c13
+    c13.rule_split(ctx, F)      # type bitmap: window / octet / bit of a type number (RFC 4034 4.1.2)
 
 
 PUSHERS = [
